@@ -61,6 +61,31 @@ type c11Mixed struct {
 	X map[string]string `json:"x,omitempty"`
 }
 
+// c11Ctx reports what the context handed to its context-aware callbacks carries: the caller's context is an
+// argument of MarshalContext / UnmarshalContext only, never of a later call.
+type c11Ctx struct{ Seen string }
+
+type c11Key struct{}
+
+func c11See(ctx context.Context) string {
+	if ctx == nil {
+		return "nil context"
+	}
+	if v, ok := ctx.Value(c11Key{}).(string); ok {
+		return "context value " + v
+	}
+	return "context without value"
+}
+
+func (c c11Ctx) MarshalJSON(ctx context.Context) ([]byte, error) {
+	return []byte(`"` + c11See(ctx) + `"`), nil
+}
+
+func (c *c11Ctx) UnmarshalJSON(ctx context.Context, b []byte) error {
+	c.Seen = c11See(ctx) + " " + string(b)
+	return nil
+}
+
 // c11Rec: a slice decoder that is re-entered while it is running (its pooled scratch arrays nest).
 type c11Rec struct {
 	V    int      `json:"v"`
@@ -174,6 +199,36 @@ func c11Calls() []c11Call {
 			return r2(json.MarshalContext(json.SetFieldQueryToContext(context.Background(), e.q3), val))
 		}},
 		{"MarshalContext(no query)", func(e *c11Env) string { return r2(json.MarshalContext(context.Background(), val)) }},
+		{"MarshalContext(context with a value, context-aware marshaler)", func(e *c11Env) string {
+			return r2(json.MarshalContext(context.WithValue(context.Background(), c11Key{}, "secret"), []interface{}{c11Ctx{}, &c11Ctx{}}))
+		}},
+		{"Marshal(context-aware marshaler)", func(e *c11Env) string {
+			return r2(json.Marshal([]interface{}{c11Ctx{}, &c11Ctx{}}))
+		}},
+		{"UnmarshalContext(context with a value, context-aware unmarshalers)", func(e *c11Env) string {
+			v := struct {
+				A c11Ctx
+				I interface{}
+			}{I: &c11Ctx{}}
+			err := json.UnmarshalContext(context.WithValue(context.Background(), c11Key{}, "secret"), []byte(`{"A":1,"I":2}`), &v)
+			return fmt.Sprintf("%+v %+v %v", v.A, v.I, err)
+		}},
+		{"Unmarshal(context-aware unmarshalers)", func(e *c11Env) string {
+			v := struct {
+				A c11Ctx
+				I interface{}
+			}{I: &c11Ctx{}}
+			err := json.Unmarshal([]byte(`{"A":1,"I":2}`), &v)
+			return fmt.Sprintf("%+v %+v %v", v.A, v.I, err)
+		}},
+		{"Decoder.Decode(context-aware unmarshalers)", func(e *c11Env) string {
+			v := struct {
+				A c11Ctx
+				I interface{}
+			}{I: &c11Ctx{}}
+			err := json.NewDecoder(strings.NewReader(`{"A":1,"I":2}`)).Decode(&v)
+			return fmt.Sprintf("%+v %+v %v", v.A, v.I, err)
+		}},
 		{"Encoder.Encode", func(e *c11Env) string {
 			e.encBuf.Reset()
 			err := e.enc.Encode(val)
